@@ -41,13 +41,13 @@ const MAX_STEPS: usize = 3_000_000;
 
 pub fn source_for(i: usize, n: usize, res: &Json) -> String {
     let me = i + 1;
-    let mut s = String::from("CONFIGURATION C\nVAR_GLOBAL\n  shared : DINT := 0;\n  a : DINT := 0;\n  b : DINT := 0;\n  torn : DINT := 0;\n  scratch : DINT := 0;\n");
+    let mut s = String::from("CONFIGURATION C\nVAR_GLOBAL\n  shared : DINT := 0;\n  a : DINT := 0;\n  b : DINT := 0;\n  torn : DINT := 0;\n  scratch : DINT := 0;\n  mp : DINT := 0;\n  mq : DINT := 0;\n");
     for k in 1..=n {
         s.push_str(&format!("  cnt_{k} : DINT := 0;\n"));
     }
     s.push_str("END_VAR\nVAR_GLOBAL RETAIN\n  keep : DINT := 0;\nEND_VAR\nPROGRAM P : Main;\nEND_CONFIGURATION\n\n");
     s.push_str(&format!(
-        "PROGRAM Main\nVAR_EXTERNAL\n  shared : DINT;\n  a : DINT;\n  b : DINT;\n  torn : DINT;\n  scratch : DINT;\n  cnt_{me} : DINT;\n  keep : DINT;\nEND_VAR\nVAR\n  zero : DINT := 0;\n  smin : SINT := -128;\n  sneg : SINT := 0;\nEND_VAR\n"
+        "PROGRAM Main\nVAR_EXTERNAL\n  shared : DINT;\n  a : DINT;\n  b : DINT;\n  torn : DINT;\n  scratch : DINT;\n  mp : DINT;\n  mq : DINT;\n  cnt_{me} : DINT;\n  keep : DINT;\nEND_VAR\nVAR\n  zero : DINT := 0;\n  smin : SINT := -128;\n  sneg : SINT := 0;\nEND_VAR\n"
     ));
     if let Some(k) = res["fault_at"].as_i64() {
         // the fault sits where the shared set is consistent (before any update of this cycle)
@@ -57,7 +57,7 @@ pub fn source_for(i: usize, n: usize, res: &Json) -> String {
         }
     }
     s.push_str(&format!(
-        "IF a <> b THEN\n  torn := torn + 1;\nEND_IF;\nshared := shared + 1;\ncnt_{me} := cnt_{me} + 1;\na := a + 1;\nb := a;\nkeep := keep + 1;\nEND_PROGRAM\n"
+        "IF a <> b THEN\n  torn := torn + 1;\nEND_IF;\nIF mp <> mq THEN\n  torn := torn + 1;\nEND_IF;\nshared := shared + 1;\ncnt_{me} := cnt_{me} + 1;\na := a + 1;\nb := a;\nkeep := keep + 1;\nEND_PROGRAM\n"
     ));
     s
 }
@@ -432,8 +432,15 @@ impl Ctl {
                     "policy-safe-halt" => ResourceCommand::UpdateFaultPolicy(FaultPolicy::SafeHalt),
                     "safe-state" => ResourceCommand::UpdateIoSafeState(Default::default()),
                     "mesh-apply" => {
+                        // an update set from a mesh peer: a pair of (resource-local) globals that the program
+                        // expects to be equal, with a name this resource does not declare in between - the set
+                        // must be applied as a whole (unknown names skipped), never half
+                        let v = Value::DInt(op["v"].as_i64().unwrap_or(1) as i32);
                         let mut updates = IndexMap::new();
-                        updates.insert(SmolStr::new("scratch"), Value::DInt(op["v"].as_i64().unwrap_or(1) as i32));
+                        updates.insert(SmolStr::new("scratch"), v.clone());
+                        updates.insert(SmolStr::new("mp"), v.clone());
+                        updates.insert(SmolStr::new("peer_only_name"), Value::DInt(1));
+                        updates.insert(SmolStr::new("mq"), v);
                         ResourceCommand::MeshApply { updates }
                     }
                     "snapshot" => {
